@@ -162,6 +162,29 @@ theorem C12_refout_groups_names_only (α β : Ambient) (b b' : Nat) (entries : L
    another (`#eval refoutGroupOrder .address …`); not stated as a theorem because the kernel cannot evaluate the UTF-8 byte
    view of strings that `rawHash` uses, and `native_decide` is not allowed.) -/
 
+/-! ## exppp: order of the declarations inside a section -/
+
+/-- The order in which exppp prints the types / entities / rules / functions / procedures of a scope does not depend on the
+    ambient, with or without `exppp_alphabetize`. -/
+theorem C12_section_order_noninterference (alpha : Bool) (α β : Ambient) (b b' : Nat) (names : List String) :
+    sectionOrder alpha α b names = sectionOrder alpha β b' names := by
+  unfold sectionOrder
+  rw [C12_hash_order_keys_only α β b b' names]
+
+/-- With `exppp_alphabetize` (the default, regenerated) the printed order does not even depend on the ORDER in which the
+    dictionary delivers the objects — hence not on the hash function, its constants, the table size or the definition
+    order: any two walks over the same duplicate-free set of names are printed identically, namely strictly increasing.
+    Assumption, stated as hypothesis: the comparison is a strict total order (`strcmp`). -/
+theorem C12_alphabetical_order_walk_independent {α : Type} (lt : α → α → Bool) (h : AlphaOrder.StrictTotal lt)
+    (w₁ w₂ : List α) (n₁ : w₁.Nodup) (n₂ : w₂.Nodup) (hp : w₁.Perm w₂) :
+    AlphaOrder.alphaOrder lt w₁ = AlphaOrder.alphaOrder lt w₂ ∧
+    AlphaOrder.Sorted lt (AlphaOrder.alphaOrder lt w₁) ∧ (AlphaOrder.alphaOrder lt w₁).Perm w₁ :=
+  ⟨AlphaOrder.alphaOrder_walk_independent lt h w₁ w₂ n₁ n₂ hp, AlphaOrder.alphaOrder_sorted lt h w₁ n₁, AlphaOrder.alphaOrder_perm lt w₁⟩
+
+/-- the hypotheses are satisfiable -/
+example : AlphaOrder.StrictTotal (fun a b : Nat => decide (a < b)) :=
+  ⟨fun a => by simp, fun a b c h1 h2 => by simp at *; omega, fun a b hne => by simp; omega⟩
+
 /-! ## the scanner -/
 
 /-- The CMakeLists.txt files the scanner writes do not depend on the ambient at all; its stdout depends on it only
